@@ -292,6 +292,9 @@ func c13Random(r *corr.Rand, tier string) []corr.Case {
 		var open []int
 		all := append(append([]string{}, c13Files...), c13Dirs...)
 		all = append(all, "/d/new.txt", "/d/newer", "/d/sub/x9", "/ab/../d/b.dat", "/d//a.txt")
+		// names that are never directories: Create / write-open / Rename confuse files and directories
+		// otherwise, which is ill-formed for the source (a directory replaced by a file orphans its children)
+		nd := append(append([]string{}, c13Files...), "/d/new.txt", "/d/newer", "/d/sub/x9", "/ab/../d/b.dat", "/d//a.txt")
 		for k := 0; k < 10+rr.Intn(25); k++ {
 			p := corr.Pick(rr, all)
 			switch q := rr.Intn(100); {
@@ -302,15 +305,23 @@ func c13Random(r *corr.Rand, tier string) []corr.Case {
 				open = append(open, nh)
 				nh++
 			case q < 36:
-				l = append(l, fmt.Sprintf("openfile %s %d 420", h(p), corr.Pick(rr, []int{0, 1, 2, 0x42, 0x242, 0x441})))
+				if fl := corr.Pick(rr, []int{0, 1, 2, 0x42, 0x242, 0x441}); fl == 0 {
+					l = append(l, fmt.Sprintf("openfile %s %d 420", h(p), fl))
+				} else {
+					l = append(l, fmt.Sprintf("openfile %s %d 420", h(corr.Pick(rr, nd)), fl))
+				}
 				open = append(open, nh)
 				nh++
 			case q < 42:
-				l = append(l, "create "+h(p))
+				l = append(l, "create "+h(corr.Pick(rr, nd)))
 				open = append(open, nh)
 				nh++
 			case q < 50:
-				l = append(l, "rename "+h(p)+" "+h(corr.Pick(rr, all)))
+				if rr.Chance(15) {
+					l = append(l, "rename "+h(corr.Pick(rr, c13Dirs))+" "+h("/moved-dir"))
+				} else {
+					l = append(l, "rename "+h(corr.Pick(rr, nd))+" "+h(corr.Pick(rr, nd)))
+				}
 			case q < 56:
 				// Remove of a populated directory is ill-formed for the source (it orphans the children)
 				l = append(l, "remove "+h(corr.Pick(rr, append(append([]string{}, c13Files...), "/d/new.txt", "/d/newer", "/d//a.txt"))))
